@@ -72,8 +72,8 @@ Proof. repeat split; reflexivity. Qed.
 Theorem c17_generated_tables : forallb (fun f => resp_tables_equiv (gen_tables f)) all_feats = true.
 Proof. exact generated_resp_tables. Qed.
 Theorem c17_generated_conforms :
-  forallb (fun f => env_conforms_role decl_ser (gen_env f) (spec_env f)) all_feats = true.
-Proof. exact generated_ser_role. Qed.
+  forallb (fun f => response_side_conforms (gen_env f) (spec_env f)) all_feats = true.
+Proof. exact generated_response_side. Qed.
 
 Eval vm_compute in "ASSUMPTIONS c17_fits_or_7f". Print Assumptions c17_fits_or_7f.
 Eval vm_compute in "ASSUMPTIONS c17_parameterless". Print Assumptions c17_parameterless.
